@@ -173,7 +173,7 @@ def trivia_variant(toks, style=None):
 
 # --------------------------------------------------------------------------- token-level mutations (C06)
 ILLEGAL = ["=", ".", ";", "@", "#", "$", "%", "^", "&", "*", "!", "~", "?", "[", "]", "|", "\\", "`", "/", "+"]
-SAMPLE_TOKENS = [("ID", "zz"), ("INT", "7"), ("FLOAT", "0.5"), ("STRING", '"s"'), ("LPAREN", "("), ("RPAREN", ")"), ("MINUS", "-"),
+SAMPLE_TOKENS = [("ID", "zz"), ("INT", "7"), ("FLOAT", "0.5"), ("STRING", '"s"'), ("STRING", '""'), ("STRING", "''"), ("STRING", '"7"'), ("INT", "0"), ("LPAREN", "("), ("RPAREN", ")"), ("MINUS", "-"),
                  ("COMMA", ","), ("COLON", ":"), ("LBRACE", "{"), ("RBRACE", "}"), ("EQ", "=="), ("GT", ">"), ("LT", "<"),
                  ("GE", ">="), ("LE", "<="), ("NE", "!="), ("IN", "in"), ("NOT", "not"), ("NOT_IN", "not in"), ("DEF", "def"),
                  ("SALT", "salt"), ("SPLITTERS", "splitters"), ("IF", "if"), ("ELIF", "else if"), ("ELSE", "else"),
